@@ -84,12 +84,19 @@ func TestC07(t *testing.T) {
 	s3meta.name = "S4-canary-template-with-namespace-metadata"
 	s3meta.tpl0, s3meta.tpls = "A+metans", []string{"A+metans", "B+label:rev=2"}
 	s3meta.first = []w.Event{evb("setTemplate", edsKey, "B+label:rev=2")}
+	// a canary template that tolerates a taint the active template does not: the canary runs on a node that is no business of
+	// the active template; after the failure that node has to end up without any daemon pod and the failed replica set
+	// has to go away
+	s3tol := corpusS3([]string{"n1", "n2"}, "1", "auto", 1, &w.Alpha{Kubectl: []string{"canary-fail"}, PodDev: []string{"restart:3"}})
+	s3tol.name = "S4-canary-on-a-node-only-its-template-tolerates"
+	s3tol.tpls = []string{"A", "B+toltaint"}
+	s3tol.first = []w.Event{evb("taint", "n1", "NoSchedule"), evb("setTemplate", edsKey, "B+toltaint")}
 	type fstate struct {
 		sc *w.Scenario
 		s  *w.State
 	}
 	var failedStates []fstate
-	runWorld(t, run, []scOpt{s3, s3short, s3m, s3mid, s3meta}, []func(*w.MonCtx){w.MonC07, w.MonC05}, 0, func(sc *w.Scenario, s *w.State, d int) {
+	runWorld(t, run, []scOpt{s3, s3short, s3m, s3mid, s3meta, s3tol}, []func(*w.MonCtx){w.MonC07, w.MonC05}, 0, func(sc *w.Scenario, s *w.State, d int) {
 		if rs, _ := failedCanary(s); rs != nil {
 			if len(failedStates) < 150000 {
 				failedStates = append(failedStates, fstate{sc, s})
